@@ -74,6 +74,23 @@ def _aligns_on_stream(type_: type[BaseType]) -> bool:
     return False
 
 
+def _is_dynamic(type_: type[BaseType], seen: tuple[type, ...] = ()) -> bool:
+    """Whether the type has a variable size, going by its members as they are now.
+
+    The ``dynamic`` attribute of a structure that is being (re)built, e.g. the target of a pointer to the structure
+    itself, still describes its previous state.
+    """
+    if issubclass(type_, BaseArray):
+        return bool(type_.dynamic) or _is_dynamic(type_.type, seen)
+
+    if issubclass(type_, Structure):
+        if type_ in seen:
+            return False
+        return any(_is_dynamic(field.type, (*seen, type_)) for field in type_.__fields__)
+
+    return bool(getattr(type_, "dynamic", False))
+
+
 class Compiler:
     def __init__(self, cs: cstruct):
         self.cs = cs
@@ -215,7 +232,7 @@ class _ReadSourceGenerator:
                 # The size of the array may depend on a field of the anonymous structure, the generated code
                 # only knows the members of this structure itself as context
                 raise TypeError("Unsupported for compiler: dynamic array after an anonymous structure")
-            if seen_anonymous and issubclass(base_type, Pointer) and getattr(base_type.type, "dynamic", False):
+            if seen_anonymous and issubclass(base_type, Pointer) and _is_dynamic(base_type.type):
                 # The same goes for a pointer to something of variable size, it is dereferenced with that context
                 raise TypeError("Unsupported for compiler: pointer to a dynamic type after an anonymous structure")
             if field.name is None and issubclass(field_type, Structure):
